@@ -131,6 +131,26 @@ def catalog(tier="quick"):
                             "rules": ["if class is True then def is False", "if class is pass or class is _x1 then def is None"]}], "distinct": [("n0", "n1")]}
     out.append(("names/keywords", make_names))
 
+    def make_input_function(sym):
+        # Function / Linear terms in an INPUT variable that read other engine variables (they need their engine reference after an import)
+        return base(inputs=[{"name": "X", "terms": [T_A, ("Function", "near", "1 - abs(x - Y)"), ("Linear", "lin", [sym("k0", "p"), sym("k1", "p"), sym("k2", "p")])]},
+                            {"name": "Y", "terms": [T_A, T_B]}],
+                    blocks=[{"name": "rules", "conjunction": "Minimum", "disjunction": "Maximum", "implication": "Minimum", "activation": ("General",),
+                             "rules": ["if X is near then O is a", "if X is lin or Y is b then O is b", "if X is a and Y is a then O is a"]}])
+    out.append(("term/input-Function+Linear-reading-the-engine", make_input_function))
+
+    def make_shared(sym):
+        # one defuzzifier, aggregation and operator object shared by two output variables with different ranges and by two blocks
+        return base(outputs=[{"name": "O", "terms": [O_A, O_B], "aggregation": "Maximum", "defuzzifier": ("Centroid", 2), "range": (0.0, 1.0)},
+                             {"name": "P", "terms": [("Triangle", "a", -10.0, 0.0, 10.0), ("Triangle", "b", 10.0, 20.0, 30.0)], "aggregation": "Maximum",
+                              "defuzzifier": ("Centroid", 2), "range": (sym("plo", "p"), sym("phi", "p"))}],
+                    blocks=[{"name": "one", "conjunction": "Minimum", "disjunction": "Maximum", "implication": "Minimum", "activation": ("General",),
+                             "rules": ["if X is a then O is a and P is b", "if X is b then O is b"]},
+                            {"name": "two", "conjunction": "Minimum", "disjunction": "Maximum", "implication": "Minimum", "activation": ("General",),
+                             "rules": ["if X is b or O is a then P is a"]}],
+                    share_components=True, valid_range=[("plo", "phi")])
+    out.append(("shared-component-objects", make_shared))
+
     def make_descriptions(sym):
         # descriptions are free text up to the end of the line: characters that some string functions treat as line boundaries
         # (form feed, vertical tab, the separators FS/GS/RS, NEL, U+2028/9), tabs, colons and runs of blanks must survive
